@@ -80,6 +80,25 @@ fn separated_roots(rng: &mut Rng, n: usize, with_zero: bool, dyadic: bool) -> Ve
 
 pub fn generate(seed: u64, thorough: bool, emit: &mut dyn FnMut(String)) {
     let mut rng = Rng::new(seed ^ 0xC07);
+    // iteration caps at the limits of usize ("iterate until converged") on inputs that converge in a few steps, for
+    // both polynomial kinds and both modes
+    {
+        use spindalis_core::polynomials::structs::{IntermediatePolynomial, PolynomialTraits, SimplePolynomial};
+        for cap in [usize::MAX, usize::MAX - 1, 1usize << 32, 1usize << 63, (1usize << 63) + 1] {
+            for (text, x0) in [("x^2 - 4", 5.0), ("x^3 - 3x^2 + 2x", 4.0), ("2x - 3", -7.0), ("x^3 - x", 3.0)] {
+                for simple in [true, false] {
+                    let p = if simple { AnyPoly::S(SimplePolynomial::parse(text).unwrap()) } else { AnyPoly::I(IntermediatePolynomial::parse(text).unwrap()) };
+                    for extrema in [false, true] {
+                        // (the derivative of a linear polynomial is a constant: Newton on it never converges)
+                        if extrema && text == "2x - 3" {
+                            continue;
+                        }
+                        emit_req(emit, &p, x0, 1e-8, cap, extrema);
+                    }
+                }
+            }
+        }
+    }
     let n = if thorough { 400000 } else { 12000 };
     for i in 0..n {
         let simple = rng.chance(1, 2);
